@@ -1,6 +1,7 @@
 /-
   Props/C06.lean — return-value contract: errors pass through unchanged, fallbacks decide.
 -/
+import CircuitProofs.Props.C06Tie
 import CircuitProofs.Props.CircuitCommon
 import CircuitProofs.Lemmas.CircuitA
 namespace CM.Props.C06
